@@ -153,11 +153,12 @@ pub fn expect_with(w: &World, now: Ts, pol: &Policy, ta_ok: &dyn Fn(usize) -> bo
         if !e.accepted.contains(&c) && !e.rejected.contains(&c) { e.unreached.insert(c); }
     }
     // Compose.
-    let mut rejected_blocks: BTreeSet<usize> = BTreeSet::new();
-    for r in &e.rejected { if !w.cas[*r].slash0 { rejected_blocks.extend(w.blocks(*r)); } }
+    // a whole-family resource of a rejected CA is not recorded (it would reject everything); its specific blocks of
+    // the other family are
+    let (rejected_v4, rejected_v6) = rejected_blocks_of(w, &e.rejected);
     for p in e.per_ca.values() {
         for v in &p.vrps {
-            let hit = rejected_blocks.iter().any(|b| {
+            let hit = (if v.0 { &rejected_v4 } else { &rejected_v6 }).iter().any(|b| {
                 let (bits, len) = if v.0 { block_v4(*b) } else { block_v6(*b) };
                 overlaps(v.1, v.2, bits, len)
             });
@@ -168,6 +169,16 @@ pub fn expect_with(w: &World, now: Ts, pol: &Policy, ta_ok: &dyn Fn(usize) -> bo
     }
     e.aspas.retain(|_, p| p.len() <= 16380);
     e
+}
+
+/// Block indices recorded as rejected resources, per address family.
+pub fn rejected_blocks_of(w: &World, rejected: &BTreeSet<usize>) -> (BTreeSet<usize>, BTreeSet<usize>) {
+    let (mut v4, mut v6) = (BTreeSet::new(), BTreeSet::new());
+    for r in rejected {
+        if !w.whole_family(*r, true) { v4.extend(w.blocks(*r)); }
+        if !w.whole_family(*r, false) { v6.extend(w.blocks(*r)); }
+    }
+    (v4, v6)
 }
 
 pub fn overlaps(a: u128, alen: u8, b: u128, blen: u8) -> bool {
